@@ -72,3 +72,11 @@ Example C12_nonvacuous :
   o_tree _ _ (run (MAGIC ++ [0;0;0;1;9] ++ [0;0;0;0] ++ [0;0]) 0%nat) = 2%nat /\
   o_exit _ _ (run (MAGIC ++ [0;0;0;1;9] ++ [0;0;0;0] ++ [0;0]) 0%nat) = Exit0.
 Proof. vm_compute. repeat split. Qed.
+
+(** The model the theorems above are about is the translation of src/bin/copia/serve.rs safe_join as it is now: the function
+    generated from the source by tools/gen_logic.py (Gen/SafeJoinGen.v) equals, on every input, Model/SafeJoin.v safe_join
+    (statement: Proofs/TieSafeJoin.v, [safe_join_model_is_translation]). *)
+Require Copia.Proofs.TieSafeJoin.
+Theorem C12_model_is_translation_of_source : TieSafeJoin.safe_join_model_is_translation.
+Proof. exact TieSafeJoin.safe_join_model_is_translation_holds. Qed.
+Print Assumptions C12_model_is_translation_of_source.
